@@ -38,7 +38,7 @@ type stats struct {
 	SchedPoints  int64                       `json:"sched_points"`
 	JitterCases  int64                       `json:"jitter_cases"`
 	Watchdogs    int64                       `json:"watchdogs"`
-	LeftBehind   int64                       `json:"left_behind"` // rounds that ended with goroutines blocked for good
+	LeftBehind   int64                       `json:"left_behind"`  // rounds that ended with goroutines blocked for good
 	CurrentCase  int64                       `json:"current_case"` // partial files only: the case the worker was executing
 }
 
